@@ -120,6 +120,7 @@ type runResult struct {
 	covers    []*Obl
 	funcs     []funcReport
 	undecided []string
+	unbound   [][2]string // contracted functions whose obligations could not be generated: function, reason
 	deps      map[string]bool
 	ctxOf     map[*Obl]*Ctx
 }
@@ -188,6 +189,7 @@ func runProp(prop string) int {
 			rr.undecided = append(rr.undecided, fmt.Sprintf("%s (function not found in the current tree)", k))
 			fmt.Printf("UNDECIDED %s: contracted function not found\n", k)
 			needSmoke = true
+			rr.unbound = append(rr.unbound, [2]string{k, "contracted function not found in the current tree"})
 			continue
 		}
 		if fn.TypeParams().Len() > 0 || len(P.instances[fn]) > 0 {
@@ -374,12 +376,15 @@ func runProp(prop string) int {
 		}()
 		if c.err != nil {
 			// The contracts bind on the unchanged tree; a binding failure here means the code
-			// under contract changed shape (renamed local, different loop count, ...): that is
-			// undecided, not a violation. The replay templates still run (step 6b).
+			// under contract changed shape (renamed local, different loop count, ...). The
+			// function's obligations, discharged on the unchanged tree, cannot be generated
+			// any more: they are reported at the end as undischarged (a violation without a
+			// failing input). The replay templates still run (step 6b) and may confirm.
 			fmt.Fprintf(os.Stderr, "UNDECIDED %s: %v\n", fn, c.err)
 			rr.undecided = append(rr.undecided, fmt.Sprintf("%s: %v", fn, c.err))
 			fmt.Printf("UNDECIDED %s: %v\n", fn, c.err)
 			needSmoke = true
+			rr.unbound = append(rr.unbound, [2]string{fn.String(), fmt.Sprint(c.err)})
 			if os.Getenv("VERIF_STRICT") != "" {
 				return 2
 			}
@@ -691,6 +696,20 @@ func runProp(prop string) int {
 		os.MkdirAll(filepath.Join(*flagVerif, "evidence"), 0o755)
 		b, _ := json.MarshalIndent(ev, "", " ")
 		os.WriteFile(filepath.Join(*flagVerif, "evidence", prop+".json"), b, 0o644)
+	}
+	// A function under contract whose obligations can no longer be generated (its contract
+	// names a loop, a local or a callee shape the code no longer has; the function is gone):
+	// on the unchanged tree these obligations exist and are discharged, now none of them is.
+	// They count as undischarged obligations of this property (reported like a solver
+	// time-out: a violation without a failing input), not as a pass.
+	for _, u := range rr.unbound {
+		name := u[0] + ".contract-binding"
+		if kf := matchKnown(known, prop, name); kf != nil && kf.Status != "fixed" {
+			continue
+		}
+		rp := writeReplayFile(prop, name, "the contract of "+u[0]+" no longer binds to the code: "+u[1]+"\n\nOn the unchanged tree the obligations of this function are generated and discharged; with the current code none of them can be generated, so nothing is proved about this function any more.\n")
+		fmt.Printf("VIOLATION property=%s replay=%s obligation=%s no-failing-input-found\n", prop, rp, name)
+		violations++
 	}
 	fmt.Printf("property %s: %d obligations, %d discharged, %d known findings, %d violations, %d functions, %.1fs\n", prop, total, discharged, len(knownHit), violations, len(rr.funcs), time.Since(t0).Seconds())
 	if solverErrors > 0 && violations == 0 {
